@@ -38,6 +38,19 @@ theorem checkAsIs_wrong_when_positive (cb : Callback) (b : Bytes) (h : cb.notCon
 theorem checkAsIs_ok_without_notContains (cb : Callback) (b : Bytes) (h : cb.notContains = []) :
     checkAsIs cb b = trigger cb b := checkAsIs_unset cb b h
 
+/-- case-insensitive by default: a case-insensitive callback's trigger depends on the output only
+through its folded form, so outputs that differ in letter case only trigger alike (the pattern is
+applied to the folded text: it must be written in lower case or carry its own case flag) -/
+theorem trigger_ignores_case (cb : Callback) (h : cb.insensitive = true) (b b' : Bytes)
+    (hf : fold b = fold b') : trigger cb b = trigger cb b' := by
+  simp [trigger, positive, forbidden, Callback.view, h, hf]
+
+/-- a case-sensitive callback (struct literal without `Insensitive`) looks at the raw output -/
+theorem trigger_sensitive_raw (cb : Callback) (h : cb.insensitive = false) (b : Bytes) :
+    trigger cb b = (((!cb.contains.isEmpty && isInfix cb.contains b) || (cb.hasRe && cb.re b)) &&
+      !(!cb.notContains.isEmpty && isInfix cb.notContains b)) := by
+  simp [trigger, positive, forbidden, Callback.view, Callback.containsB, Callback.notContainsB, h]
+
 /-! ## one arrival, from any state (= after any history) -/
 
 /-- `first_triggered_runs`: whenever the accumulation (output since the last reset plus this
@@ -405,6 +418,9 @@ def helloBadWorld : Bytes := [72, 101, 108, 108, 111, 32, 98, 97, 100, 32, 119, 
 example : trigger cbHello helloWorld = true ∧ trigger cbHello helloBadWorld = false ∧
     check cbHello helloWorld = true ∧ check cbHello helloBadWorld = false ∧
     checkAsIs cbHello helloWorld = false ∧ checkAsIs cbHello helloBadWorld = true := by decide
+
+/-- `HELLO` and `hello` fold alike (hypothesis of `trigger_ignores_case`) -/
+example : fold [72, 69, 76, 76, 79] = fold [104, 101, 108, 108, 111] := by decide
 
 /-- hypotheses of `first_triggered_runs` / `complete_ends_operation` hold for a concrete case -/
 example : (St.init [] 100).el + (Arrival.mk 3 helloWorld).gap < (St.init [] 100).t ∧
